@@ -13,6 +13,7 @@ CONSTANTS Callers,      \* runtime goroutines
           Failable,     \* plugins that may fail at any time
           Vetoers,      \* plugins whose handler may return an error
           Updater,      \* plugin issuing one unsolicited update ("" = none)
+          BadOnes,      \* plugins of RegOrder whose registration is malformed or stalls (C17)
           NReq,         \* requests per caller
           UseBlocks     \* FALSE: the runtime forgets the sync block (negative test)
 
@@ -77,8 +78,13 @@ CUnblock(c) ==
 
 \* ------------------------------------------------------------- accept loop --
 RP == RegOrder[regi]
+\* a malformed or stalling registration costs the accept loop at most one timeout and is dropped
+RReject ==
+  /\ regpc = "idle" /\ regi <= Len(RegOrder) /\ RP \in BadOnes
+  /\ regi' = regi + 1
+  /\ UNCHANGED <<rvars, cpc, cn, regpc, upc, vetoed>>
 RWant ==
-  /\ regpc = "idle" /\ regi <= Len(RegOrder)
+  /\ regpc = "idle" /\ regi <= Len(RegOrder) /\ RP \notin BadOnes
   /\ WantSync(RP, PIdx[RP], PMask[RP])
   /\ regpc' = "want" /\ UNCHANGED <<cpc, cn, regi, upc, vetoed>>
 RGot ==
@@ -123,12 +129,12 @@ UUnlock ==
 
 MNext ==
   \/ \E c \in Callers : CBlock(c) \/ CLock(c) \/ CDeliver(c) \/ CVeto(c) \/ CUnlock(c) \/ CStore(c) \/ CUnblock(c)
-  \/ RWant \/ RGot \/ RSnap \/ RLock \/ RActivate \/ RUnlock \/ RFinish
+  \/ RReject \/ RWant \/ RGot \/ RSnap \/ RLock \/ RActivate \/ RUnlock \/ RFinish
   \/ Fail \/ ULock \/ UCallback \/ UUnlock
 
 Fairness ==
   /\ \A c \in Callers : WF_mvars(CBlock(c) \/ CLock(c) \/ CDeliver(c) \/ CUnlock(c) \/ CStore(c) \/ CUnblock(c))
-  /\ WF_mvars(RWant \/ RGot \/ RSnap \/ RLock \/ RActivate \/ RUnlock \/ RFinish)
+  /\ WF_mvars(RReject \/ RWant \/ RGot \/ RSnap \/ RLock \/ RActivate \/ RUnlock \/ RFinish)
   /\ WF_mvars(ULock \/ UCallback \/ UUnlock)
 
 MSpec == MInit /\ [][MNext]_mvars /\ Fairness
@@ -148,6 +154,8 @@ VisitedOK ==
   /\ \A i, j \in DOMAIN cur.visited : i < j => idx[cur.visited[i]] <= idx[cur.visited[j]]
 \* the update callback never overlaps a request
 CallbackExclusive == upc = "called" => (rlock = "u-" \o Updater /\ \A c \in Callers : cpc[c] # "locked")
+\* C17: a plugin whose registration was malformed is never synchronized, activated or invoked
+OnlyWellFormed == \A p \in BadOnes : ~Known(p) /\ p \notin SeqSet(active)
 \* liveness: every caller finishes its script, every registration ends
 AllDone == <>(\A c \in Callers : cn[c] > NReq)
 RegsEnd == <>(regi > Len(RegOrder))
